@@ -65,6 +65,52 @@ class World:
                 return False
 
         self.Leaf = Leaf
+        self.moves = []      # every Columns.move_cursor_to_coords call since the last event (facts only; FocusTreeOps!MoveOk judges)
+
+        class CursorLeaf(Leaf):
+            """a selectable leaf with a cursor column: answers get_pref_col, takes (or refuses) a cursor sent to it"""
+
+            def __init__(self, eats, pref, accepts=True):
+                super().__init__(True, eats)
+                self.pref = pref
+                self.accepts = accepts
+
+            def get_pref_col(self, size):
+                return self.pref
+
+            def move_cursor_to_coords(self, size, col, row):
+                if not self.accepts:
+                    return False
+                if isinstance(col, int):
+                    self.pref = max(col, 0)
+                return True
+
+        self.CursorLeaf = CursorLeaf
+
+        class Columns(urwid.Columns):
+            """urwid.Columns itself; move_cursor_to_coords additionally writes down what it was asked and what it did"""
+
+            def move_cursor_to_coords(self, size, col, row):
+                rec = None
+                try:
+                    widths = [int(x) for x in self.get_column_sizes(size, focus=True)[0]]
+                    kids = [w for w, _ in self.contents][:len(widths)]
+                    rec = {"id": getattr(self, "_vf_id", 0), "widths": widths, "sel": [1 if w.selectable() else 0 for w in kids],
+                           "acc": [1 if not hasattr(w, "move_cursor_to_coords") else ((1 if w.accepts else 0) if isinstance(w, CursorLeaf) else 2)
+                                   for w in kids],
+                           "div": self.dividechars, "maxcol": size[0] if size else -1, "row": row, "before": self.focus_position,
+                           "colk": "int" if type(col) is int else (str(col) if col in ("left", "right") else "other"),
+                           "col": col if type(col) is int else 0}
+                except Exception:  # noqa: BLE001
+                    rec = None
+                ret = super().move_cursor_to_coords(size, col, row)
+                if rec is not None:
+                    rec["ret"] = 0 if ret is False else 1
+                    rec["after"] = self.focus_position
+                    world.moves.append(rec)
+                return ret
+
+        self.Columns = Columns
 
     def tag(self, w):
         self.nid += 1
@@ -80,6 +126,12 @@ class World:
         sel = self.rng.random() < 0.6
         return self.Leaf(sel, ("x",) if (sel and self.rng.random() < 0.5) else ())
 
+    def cursor_leaf(self, width=14, accepts=True):
+        rng = self.rng
+        q = rng.random()
+        pref = rng.randrange(max(width, 1)) if q < 0.85 else rng.choice(["left", "right", 0, width + 3])
+        return self.CursorLeaf(tuple(rng.sample(ALPHABET, rng.choice([0, 0, 1]))), pref, accepts)
+
     def flow(self, depth):
         r = self.rng.random()
         u = self.u
@@ -89,7 +141,7 @@ class World:
         if r < 0.65:
             return self.tag(u.Pile([self.flow(depth - 1) for _ in range(n)]))
         if r < 0.85:
-            return self.tag(u.Columns([self.flow(depth - 1) for _ in range(n)], dividechars=1))
+            return self.tag(self.Columns([self.flow(depth - 1) for _ in range(n)], dividechars=1))
         return self.tag(u.GridFlow([self.leaf() for _ in range(n)], 3, 1, 0, "left"))
 
     def box(self, depth):
@@ -228,14 +280,14 @@ class World:
 
 
 EVENT_DEFAULTS = {"recv": [], "ate": 0, "ret": "same", "key": "", "samestruct": 0, "target": 0, "want": -1, "rfocus": [], "way": "",
-                  "p_saved": [], "p_back": [], "p_later": [], "pre": [], "pendpre": [], "firstpre": [], "pend": [], "pendfirst": []}
+                  "p_saved": [], "p_back": [], "p_later": [], "pre": [], "pendpre": [], "firstpre": [], "pend": [], "pendfirst": [], "moves": []}
 
 
 class History:
     """One history on one tree.  Every operation appends ONE event: the operation, what it returned / raised, the focus indices
     read right after it (`foc`), then - unless layout=False - a rendering, then the node table (`post`)."""
 
-    def __init__(self, seed, fam, depth):
+    def __init__(self, seed, fam, depth, deep=False):
         import random
 
         self.seed, self.fam = seed, fam
@@ -255,9 +307,53 @@ class History:
                 if self.unsel_candidates():
                     break
             self.H = rng.choice([7, 7, 7, 5])
+        elif fam == "hidecols":
+            self.W = rng.randint(5, 16)
+            self.root = self.build_hidecols(deep)
+            self.H = rng.choice([7, 7, 7, 5, 3]) if not deep else rng.choice([9, 9, 7, 4])
         else:
             self.root = self.build_longlist()
             self.H = rng.choice([7, 7, 6, 5, 4, 3])
+
+    # ---- trees of the "hidecols" family: rows of given-width columns wider than the screen under a Pile / ListBox ------------
+    def build_hidecols(self, deep):
+        wd, u, rng = self.wd, self.u, self.rng
+        W = self.W
+
+        def row():
+            n = rng.randint(2, 8 if deep else 6)
+            kids = []
+            for _ in range(n):
+                if rng.random() < 0.6:
+                    w = wd.cursor_leaf(W, accepts=rng.random() < 0.92) if rng.random() < 0.6 else wd.leaf(sel=True)
+                else:
+                    w = wd.leaf(sel=False)
+                kids.append((rng.randint(1, 6), w) if rng.random() < 0.88 else ("weight", rng.randint(1, 2), w))
+            if not any(k[-1].selectable() for k in kids):
+                j = rng.randrange(n)
+                kids[j] = (*kids[j][:-1], wd.cursor_leaf(W))
+            return wd.tag(wd.Columns(kids, dividechars=rng.choice([0, 0, 1, 1, 2]), min_width=rng.choice([1, 1, 2])))
+
+        def plain():
+            return wd.cursor_leaf(W) if rng.random() < 0.7 else wd.leaf()
+
+        items = [plain()]
+        self.rows = []
+        for _ in range(rng.randint(1, 3 if deep else 2)):
+            r = row()
+            self.rows.append(r)
+            items.append(r)
+            if rng.random() < 0.8:
+                items.append(plain())
+        if rng.random() < 0.3:
+            del items[0]
+        if len(items) == 1:
+            items.append(wd.cursor_leaf(W))
+        if rng.random() < 0.5:
+            self.parent = wd.tag(u.Pile(items))
+            return u.Filler(self.parent, valign="top")
+        self.parent = self.lb = wd.tag(u.ListBox(rng.choice([u.SimpleFocusListWalker, u.SimpleListWalker])(items)))
+        return self.parent
 
     # ---- trees of the "longlist" family ------------------------------------------------------------------------------
     def build_longlist(self):
@@ -271,7 +367,7 @@ class History:
             elif q < 0.92:
                 items.append(wd.tag(u.Pile([wd.leaf() for _ in range(2)])))
             else:
-                items.append(wd.tag(u.Columns([wd.leaf() for _ in range(2)], dividechars=1)))
+                items.append(wd.tag(wd.Columns([wd.leaf() for _ in range(2)], dividechars=1)))
         walker = rng.choice([u.SimpleFocusListWalker, u.SimpleListWalker])(items)
         self.walker_kind = type(walker).__name__
         self.lb = lb = wd.tag(u.ListBox(walker))
@@ -289,7 +385,7 @@ class History:
                 kids.reverse()
             return wd.tag(u.Pile(kids, focus_item=lb))
         if wrap == "columns":
-            return wd.tag(u.Columns([("weight", 3, lb), ("weight", 1, u.Filler(wd.leaf(), valign="top"))], dividechars=1))
+            return wd.tag(wd.Columns([("weight", 3, lb), ("weight", 1, u.Filler(wd.leaf(), valign="top"))], dividechars=1))
         return wd.tag(u.Overlay(lb, u.Filler(wd.leaf(), valign="top"), "center", 10, "middle", 4))
 
     # ---- recording ----------------------------------------------------------------------------------------------------
@@ -347,6 +443,8 @@ class History:
                 e["soft"] = e["soft"] or ("render:" + type(ex).__name__)
                 e["rfocus"] = []
                 e["laid"] = 0
+        e["moves"] = list(wd.moves)      # cursors sent into Columns by the operation and by the layout after it
+        del wd.moves[:]
         try:
             e["post"] = wd.table(root)
             for nd in e["post"]:
@@ -741,7 +839,62 @@ class History:
                 break
 
 
-FAMILIES = {"mix": 12, "unsel": 2, "longlist": 14}     # family -> default length (operations / placement rounds)
+    # ---- family "hidecols": the row's own focus far right (leftmost columns hidden), the parent's focus elsewhere, then up / down
+    # (page keys) INTO the row: the parent sends the cursor into the Columns ------------------------------------------------
+    def run_hidecols(self, rounds):
+        wd, u, rng, par = self.wd, self.u, self.rng, self.parent
+        islb = isinstance(par, u.ListBox)
+        for _ in range(rounds):
+            c = rng.choice(self.rows)
+            kids = wd.children(par)
+            ri = next((i for i, k in enumerate(kids) if wd.base(k) is c), None)
+            n = len(c.contents)
+            if ri is None or not n:
+                return
+            # 1. the row's own focus: mostly far right
+            j = rng.randrange(n) if rng.random() < 0.35 else max(0, n - 1 - rng.choice([0, 0, 0, 1, 2]))
+            if rng.random() < 0.5:
+                self.op_setfocus(c, j, way=rng.choice(["position", "set_focus"]), layout=rng.random() < 0.5)
+            else:
+                self.op_setpath([*wd.path_to(self.root, par), ri, j], layout=rng.random() < 0.5)
+            if self.stop():
+                return
+            # 2. the parent's focus elsewhere, on a selectable child; the cursor column there is set by hand (a probe's own state)
+            others = [i for i, k in enumerate(kids) if i != ri and wd.base(k).selectable()]
+            if not others:
+                continue
+            oi = rng.choice(others)
+            ok = wd.base(kids[oi])
+            if isinstance(ok, wd.CursorLeaf) and rng.random() < 0.7:
+                ok.pref = rng.randrange(self.W) if rng.random() < 0.9 else rng.choice(["left", "right"])
+            self.op_setfocus(par, oi, way=rng.choice(["position", "position", "set_focus", "walker"] if islb else ["position", "set_focus"]),
+                             layout=rng.random() < 0.75, coming_from=rng.choice([None, "above", "below"]))
+            if self.stop():
+                return
+            # 3. towards the row with the keys of the parent
+            down = oi < ri
+            for _k in range(abs(oi - ri) + 1):
+                try:
+                    if par.focus_position == ri:
+                        break
+                except IndexError:
+                    return
+                key = ("down" if down else "up") if (not islb or rng.random() < 0.8) else ("page down" if down else "page up")
+                if not self.op_key(key, layout=rng.random() < 0.8):
+                    return
+                if self.stop():
+                    return
+            # 4. and a few keys more (the next key goes to the column the cursor was given to)
+            for _k in range(rng.choice([0, 1, 1, 2])):
+                if not self.op_key(rng.choice(["left", "right", "x", "up", "down", "enter", "home", "end"]), layout=rng.random() < 0.8):
+                    return
+                if self.stop():
+                    return
+
+
+QUICK_SIZES = {"mix": 1500, "unsel": 150, "longlist": 400, "hidecols": 300}
+OFFSETS = {"mix": 0, "unsel": 400000, "longlist": 700000, "hidecols": 900000}
+FAMILIES = {"mix": 12, "unsel": 2, "longlist": 14, "hidecols": 3}     # family -> default length (operations / placement rounds)
 
 
 def run_history(seed, nops=None, depth=None, fam="mix"):
@@ -749,13 +902,17 @@ def run_history(seed, nops=None, depth=None, fam="mix"):
         depth = 2 if seed % 3 else 3
     if nops is None:
         nops = FAMILIES[fam]
-    h = History(seed, fam, depth)
+    # the histories only the thorough tier reaches (index beyond the quick tier's) are the deeper ones: a function of the seed alone
+    deep = fam == "hidecols" and (seed % 1000003) - OFFSETS[fam] >= QUICK_SIZES[fam]
+    if deep:
+        nops *= 2
+    h = History(seed, fam, depth, deep)
     out = {"seed": seed, "fam": fam, "ev": h.ev}
     if fam == "longlist":
         out["walker"] = getattr(h, "walker_kind", "")
     if not h.init():
         return out
-    {"mix": h.run_mix, "unsel": h.run_unsel, "longlist": h.run_longlist}[fam](nops)
+    {"mix": h.run_mix, "unsel": h.run_unsel, "longlist": h.run_longlist, "hidecols": h.run_hidecols}[fam](nops)
     return out
 
 
@@ -764,6 +921,9 @@ ListLen = {ll}
 View = 2
 Wide = {wide}
 Variant = "{variant}"
+ColW = 2
+RowW = {roww}
+Div = {div}
 SPECIFICATION Spec
 INVARIANT FocusInv
 INVARIANT ColsFocusInv
@@ -772,10 +932,12 @@ INVARIANT UnhandledKeyComesBack
 INVARIANT ArrowLandsOnSelectable
 INVARIANT AssignmentKept
 INVARIANT LayoutKeeps
+INVARIANT CursorIntoColumnsOk
 CHECK_DEADLOCK FALSE
 """
 # wrong designs the model must refute: variant -> the invariants one of which TLC has to report
-WRONG = {"guardOnFocusChild": {"UnhandledKeyComesBack"}, "staleWalker": {"LayoutKeeps", "KeyOfferedOnPath", "UnhandledKeyComesBack"}}
+WRONG = {"guardOnFocusChild": {"UnhandledKeyComesBack"}, "staleWalker": {"LayoutKeeps", "KeyOfferedOnPath", "UnhandledKeyComesBack"},
+         "shownIndex": {"CursorIntoColumnsOk", "ArrowLandsOnSelectable"}}
 
 
 def _handle(chk, traces, res):
@@ -786,9 +948,11 @@ def _handle(chk, traces, res):
         target_kind = next((n["kind"] for n in e["post"] if n["id"] == e.get("target")), "")
         sig = {"event": e["t"], "exc": e["exc"], "expect": e["expect"], "key": e.get("key", ""), "target_kind": target_kind, "fam": tr.get("fam", "mix"),
                "way": e.get("way", "")}
+        if "cursor_sent_into_columns" in why:
+            sig["hidden_left"] = 1 if any(x == 0 for m in e.get("moves", []) for x in m["widths"]) else 0
         chk.reject(f"C08.{why}", sig, {"seed": tr["seed"], "fam": tr.get("fam", "mix"), "nops": len(tr["ev"]) - 1, "event_index": l, "kinds": kinds,
                                        "observed": {k: e[k] for k in ("t", "exc", "expect", "key", "recv", "ate", "ret", "rfocus", "target", "want", "way", "laid",
-                                                                      "foc", "p_saved", "p_back", "p_later")},
+                                                                      "foc", "p_saved", "p_back", "p_later", "moves")},
                                        "pre": e["pre"], "post": e["post"]})
 
 
@@ -826,6 +990,29 @@ def _count(chk, traces, kinds, nontriv):
                     inc("container." + nd["kind"])
                     if nd["nch"] == 0:
                         inc("empty_container")
+            for m in e.get("moves", []):
+                inc("cursor_sent_into_columns")
+                hid = sum(1 for x in m["widths"] if x == 0)
+                up = next((n["kind"] for n in e["post"] for c in e["post"] if c["id"] == m["id"] and n["id"] == c["parent"]), "root")
+                if not m["ret"]:
+                    inc("cursor_into_columns_refused")
+                if m["colk"] != "int":
+                    inc("cursor_into_columns_col." + m["colk"])
+                if hid:
+                    inc("cursor_into_columns_hidden_left")
+                    inc("cursor_into_hidden_columns_under." + up)
+                    inc(f"cursor_into_hidden_columns_k{min(hid, 3)}")
+                    if m["div"]:
+                        inc("cursor_into_hidden_columns_with_dividers")
+                    if any(s_ and not x for s_, x in zip(m["sel"], m["widths"])):
+                        inc("cursor_into_hidden_columns_hidden_selectable")
+                    if e["t"] == "key":
+                        inc("cursor_into_hidden_columns_key." + e["key"])
+                    else:
+                        inc("cursor_into_hidden_columns_by_layout")
+                    if m["ret"] and m["after"] != m["before"]:
+                        inc("cursor_into_hidden_columns_moved_focus")
+                        nontriv.add(hash(json.dumps(m, sort_keys=True)))
             if e["t"] == "key":
                 if e["key"] in ARROWS and any(a["focus"] != b["focus"] for a in e["pre"] for b in e["post"] if a["id"] == b["id"]):
                     inc("arrow_moved_focus")
@@ -857,12 +1044,12 @@ def _count(chk, traces, kinds, nontriv):
 
 def run(chk):
     quick = chk.tier == "quick"
-    pool = cf.ThreadPoolExecutor(3)
+    pool = cf.ThreadPoolExecutor(4)
     mk, ll, wide = (3, 4, 0) if quick else (4, 6, 1)
-    futs = {"doc": pool.submit(tlc.mc, "FocusTree", MC_CFG.format(mk=mk, ll=ll, wide=wide, variant="doc"), timeout=2400, workers=3 if quick else 5)}
+    futs = {"doc": pool.submit(tlc.mc, "FocusTree", MC_CFG.format(mk=mk, ll=ll, wide=wide, variant="doc", roww=3 if quick else 5, div=1), timeout=2400, workers=4 if quick else 5)}
     for v in WRONG:
-        futs[v] = pool.submit(tlc.mc, "FocusTree", MC_CFG.format(mk=3, ll=4, wide=0, variant=v), timeout=1200, workers=1)
-    sizes = {"mix": 1500, "unsel": 150, "longlist": 400} if quick else {"mix": 24000, "unsel": 2000, "longlist": 8000}
+        futs[v] = pool.submit(tlc.mc, "FocusTree", MC_CFG.format(mk=3, ll=4, wide=0, variant=v, roww=3, div=1), timeout=1200, workers=1)
+    sizes = dict(QUICK_SIZES) if quick else {"mix": 24000, "unsel": 2000, "longlist": 8000, "hidecols": 8000}
     base = chk.seed * 1000003
     kinds, nontriv = {}, set()
     total = tlc.TVResult()
@@ -881,8 +1068,8 @@ def run(chk):
 
     samples = []
     for fam, n in sizes.items():
-        off = {"mix": 0, "unsel": 400000, "longlist": 700000}[fam]
-        step = {"mix": 300, "unsel": 50, "longlist": 200}[fam]
+        off = OFFSETS[fam]
+        step = {"mix": 300, "unsel": 50, "longlist": 200, "hidecols": 150}[fam]
         for lo in range(0, n, step):
             traces = [run_history(base + off + i, fam=fam) for i in range(lo, min(n, lo + step))]
             if lo == 0:
@@ -924,6 +1111,10 @@ def run(chk):
             "key_on_unselectable_focus_selectable_below", "key_right_after_assignment", "key_with_listbox_focus_change_pending", "far_jump_then_layout",
             "far_jump_without_layout", "roundtrip_longlist", "walker.SimpleListWalker", "walker.SimpleFocusListWalker", "setpath", "render",
             "no_layout_after.setfocus", "no_layout_after.key"]
+    need += ["family.hidecols", "cursor_sent_into_columns", "cursor_into_columns_refused", "cursor_into_columns_col.left", "cursor_into_columns_hidden_left",
+             "cursor_into_hidden_columns_under.Pile", "cursor_into_hidden_columns_under.ListBox", "cursor_into_hidden_columns_k1", "cursor_into_hidden_columns_k2",
+             "cursor_into_hidden_columns_with_dividers", "cursor_into_hidden_columns_hidden_selectable", "cursor_into_hidden_columns_key.up",
+             "cursor_into_hidden_columns_key.down", "cursor_into_hidden_columns_moved_focus"]
     need += ["way." + w for w in History.WAYS] + ["unsel_key." + k for k in ALPHABET]
     for v in need:
         if not kinds.get(v):
